@@ -503,8 +503,95 @@ class Gen:
             return ('buffer/format', [self.bufv(), fmt] + vals)
         return ('string/format', [fmt] + vals)
 
+    # ---------------------------------------------------------------- item-length boundary of the formatters (session 4c)
+    def double_with_digits(self, ndig):
+        """an exactly representable double >= 2^63 whose integer part has `ndig` decimal digits (20 <= ndig <= 308)"""
+        r = self.r
+        for _ in range(200):
+            m = r.choice([1, 1, 3, 5, 625, r.range(1, 1 << 20) | 1, r.range(1 << 52, (1 << 53) - 1) | 1])
+            k0 = int((ndig - 1) * 3.3219280948873626) - m.bit_length() + 1
+            for k in range(max(0, k0 - 2), k0 + 6):
+                n = m << k
+                if len(str(n)) == ndig and n >= 1 << 63 and n.bit_length() <= 1023:
+                    return float(n)
+        return None
+
+    def case_format_boundary(self, target=None):
+        """one directive whose complete rendering has a chosen length next to the item limit MAX_ITEM = 256 (254 … 257 bytes:
+        the last two that fit, the first two that do not), or the longest rendering its kind can reach.  Width and
+        precision have at most two digits (scanformat), so only %f can reach the limit: %<flags><w>.<p>f of a double with
+        the right number of integer digits.  Expected: the exact rendering below 256 bytes, an error from 256 on."""
+        r = self.r
+        T = target if target is not None else r.choice([254, 255, 255, 256, 256, 256, 257, 258, 300, 253])
+        kind = r.choice(['f'] * 8 + ['e', 'g', 'd', 'x', 's', 'c'])
+        vals = []
+        if kind == 'f':
+            neg = r.chance(1, 4)
+            flags = r.choice([b'', b'', b'+', b' ', b'-', b'0'])
+            sign = 1 if (neg or b'+' in flags or b' ' in flags) else 0
+            width = r.choice([b'', b'', b'9', b'99'])
+            x = None
+            while x is None:
+                p = r.choice([99, 99, 98, 0, 6, None, r.below(100)])
+                frac = 7 if p is None else (0 if p == 0 else 1 + p)
+                nd = T - sign - frac
+                if 20 <= nd <= 308:
+                    x = self.double_with_digits(nd)
+            d = b'%' + flags + width + (b'' if p is None else b'.%d' % p) + b'f'
+            vals.append(('d', -x if neg else x))
+        elif kind in ('e', 'g'):
+            d = b'%' + r.choice([b'', b'+', b'-', b'0']) + r.choice([b'', b'99']) + b'.99' + kind.encode()
+            vals.append(('d', r.choice([1.0, -1.0]) * (self.double_with_digits(r.range(20, 308)) or 2.0 ** 70)))
+        elif kind == 'd':
+            d = b'%' + r.choice([b'', b'+', b'-', b'0', b' ']) + b'99' + r.choice([b'', b'.99']) + r.choice([b'd', b'i'])
+            vals.append(I(r.choice([0, -1, INT32_MAX, INT32_MIN, r.range(-100000, 100000)])))
+        elif kind == 'x':
+            d = b'%' + r.choice([b'', b'#', b'-', b'0', b'-#']) + b'99' + r.choice([b'', b'.99']) + r.choice([b'x', b'X', b'o'])
+            vals.append(I(r.choice([0, 1, 255, INT32_MAX, r.below(100000)])))
+        elif kind == 's':
+            d = b'%' + r.choice([b'', b'-']) + r.choice([b'99', b'98', b'']) + r.choice([b'', b'.99', b'.98']) + b's'
+            if d == b'%s': d = b'%99s'
+            n = r.choice([0, 1, 98, 99, 99, 100, 120, 255, 256]) if b'.' in d else r.choice([0, 1, 98, 99, 99])
+            vals.append((self.bkind(), bytes(r.choice([0x61, 0x62, 0x7a, 0x20, 0xff]) for _ in range(n))))
+        else:
+            d = b'%' + r.choice([b'', b'-']) + b'99c'
+            vals.append(I(r.choice([65, 97, 122, 33])))
+        k = r.below(6)
+        if k == 0:
+            fmt = b'ab' + d + b'|%d'
+            vals.append(I(r.range(-9, 9)))
+        elif k == 1:
+            fmt = b'%d:' + d
+            vals.insert(0, I(r.range(-9, 9)))
+        else:
+            fmt = d
+        if r.chance(1, 3):
+            return ('buffer/format', [B(self.raw(r.below(4), small=True)), S(fmt)] + vals)
+        return ('string/format', [S(fmt)] + vals)
+
+    def boundary_cases(self, n):
+        """the fixed core of the family (every length 253 … 258 through a bare `%.<p>f`, positive and negative, both entry
+        points) followed by `n` random members"""
+        out = []
+        for T in (253, 254, 255, 256, 257, 258):
+            for p, sign in ((99, 1), (99, -1), (50, 1), (0, 1)):
+                nd = T - (1 if sign < 0 else 0) - (0 if p == 0 else 1 + p)
+                for m in (1, 3):
+                    k = 0
+                    while len(str(m << k)) < nd:
+                        k += 1
+                    if len(str(m << k)) != nd or (m << k).bit_length() > 1023:
+                        continue
+                    x = ('d', sign * float(m << k))
+                    out.append(('string/format', [S(b'%%.%df' % p), x]))
+                    out.append(('buffer/format', [B(b'x'), S(b'%%.%df' % p), x]))
+        out += [self.case_format_boundary() for _ in range(n)]
+        return out
+
     def case_format(self):
         r = self.r
+        if r.chance(1, 12):
+            return self.case_format_boundary()
         if r.chance(2, 3):
             return self.case_format_subset()
         parts, vals = [], []
